@@ -67,7 +67,11 @@ class Signal(object):
         universe_assets = self.universe.get_assets(dt)
 
         # TODO: Assume universe never decreases for now
-        extra_assets = list(set(universe_assets) - set((self.assets)))
+        # Keep the universe's own order: a set difference would append the
+        # new assets in string-hash order, which differs between interpreters
+        extra_assets = [
+            asset for asset in universe_assets if asset not in self.assets
+        ]
         for extra_asset in extra_assets:
             self.assets.append(extra_asset)
 
